@@ -4,7 +4,8 @@
    the anti-aliased variant are tied to the code by the correspondence suites and the geometric oracle only
    (DESIGN.md, C06 partial). *)
 From Coq Require Import ZArith List.
-From TS Require Import Base.F32 Model.Rect Model.Edge Model.Hairline Model.LineClip Proofs.RectPoints Proofs.HairlineProofs Proofs.LineClipProofs.
+From TS Require Import Base.F32 Model.Rect Model.Edge Model.Hairline Model.LineClip Proofs.RectPoints Proofs.HairlineProofs Proofs.LineClipProofs Proofs.HairlineChain.
+From TS Require Import Model.RunC06.
 Import ListNotations.
 Local Open Scope Z_scope.
 
@@ -72,6 +73,18 @@ Check C06_line_clip_not_outside :
   fin (px s0) -> fin (py s0) -> fin (px s1) -> fin (py s1) -> clip_ok clip ->
   from_ltrb (F32.min (px s0) (px s1)) (F32.min (py s0) (py s1)) (F32.max (px s0) (px s1)) (F32.max (py s0) (py s1)) = Some bnd ->
   intersect s0 s1 clip = Some (p, q) -> nout clip p /\ nout clip q.
+
+(* END TO END for one clipped hairline segment (hair_line_rgn: chop to +-32767, chop to the clip, FDot6, walk): every blit
+   is inside the w x h target, for all end points.  Side condition: the segment handed from the first chop to the second is
+   finite with a valid bounding Rect (absence of overflow in the f64 intersection arithmetic is not proved). *)
+Theorem C06_hair_line_rgn_seg_in_clip :
+  forall w h p0 p1 bl x y,
+  1 <= w <= 32767 -> 1 <= h <= 32767 ->
+  (forall fb a b, fixed_bounds = Some fb -> intersect p0 p1 fb = Some (a, b) ->
+     fin (px a) /\ fin (py a) /\ fin (px b) /\ fin (py b) /\
+     exists bnd, from_ltrb (F32.min (px a) (px b)) (F32.min (py a) (py b)) (F32.max (px a) (px b)) (F32.max (py a) (py b)) = Some bnd) ->
+  hair_line_rgn_seg w h p0 p1 = Some bl -> In (x, y) bl -> 0 <= x < w /\ 0 <= y < h.
+Proof. exact hair_line_rgn_seg_in_clip. Qed.
 
 (* non-vacuity: a diagonal from (1.5,1.5) to (5.5,3.5) on an 8x8 clip *)
 Example C06_example :
